@@ -5,7 +5,8 @@
 // it when every started instance has been awaited).
 //
 //	engine <gun> <startup> <rps> <ammo-bound> <delay-ms> <queue> <entry>,<entry>...
-//	       gun      http | connect, optionally followed by @localhost (the target written with a host name: the gun
+//	       gun      grpc (ammo: grpc/json file, entries <hex tag>:st<status code>, phout without ids: the gRPC gun attaches none) |
+//	                http | connect, optionally followed by @localhost (the target written with a host name: the gun
 //	                factory pre-resolves it, base.go PreResolveTargetAddr) or @nodns (host name and dial: {dns-cache: false})
 //	       startup  once:<n> | const:<ops>:<ms> | line:<from>:<to>:<ms> | step:<from>:<to>:<step>:<ms> |
 //	                istep:<from>:<to>:<step>:<ms>, several joined by '+' (composite)
@@ -23,6 +24,7 @@ package main
 
 import (
 	"context"
+	"encoding/json"
 	"fmt"
 	"sort"
 	"strconv"
@@ -102,7 +104,8 @@ func runEngine(f []string) string {
 	importAll()
 	gun, startup, rps, bound, delay, queue := f[1], f[2], f[3], f[4], f[5], f[6]
 	gun, how, _ := strings.Cut(gun, "@")
-	if (gun != "http" && gun != "connect") || (how != "" && how != "localhost" && how != "nodns") {
+	isGrpc := gun == "grpc"
+	if (gun != "http" && gun != "connect" && !isGrpc) || (how != "" && (isGrpc || (how != "localhost" && how != "nodns"))) {
 		return "unknown-case"
 	}
 	startY, ok := schedulesYAML(startup)
@@ -125,12 +128,21 @@ func runEngine(f []string) string {
 	if _, err := strconv.Atoi(delay); err != nil {
 		return "unknown-case"
 	}
-	t, err := a18.NewTarget()
-	if err != nil {
-		return "targeterr"
+	var t *a18.Target
+	var gt *a18.GrpcTarget
+	var err error
+	if isGrpc {
+		if gt, err = a18.StartGrpc(); err != nil {
+			return "targeterr"
+		}
+		defer gt.Stop()
+	} else {
+		if t, err = a18.NewTarget(); err != nil {
+			return "targeterr"
+		}
+		defer t.Close()
+		t.SetConnectMode("ok")
 	}
-	defer t.Close()
-	t.SetConnectMode("ok")
 
 	engSeq++
 	ammoFile := fmt.Sprintf("engine-%d.uri", engSeq)
@@ -146,13 +158,24 @@ func runEngine(f []string) string {
 			xv = "trunc:500"
 		}
 		tag, _, _ := strings.Cut(e, ":")
+		if isGrpc {
+			line, _ := json.Marshal(map[string]interface{}{"tag": string(vh.UnHex(tag)), "call": helloMethod, "payload": map[string]interface{}{"name": "x"},
+				"metadata": map[string]string{"x-status": strings.TrimPrefix(st, "st"), "x-delay": delay, "x-entry": fmt.Sprintf("/e%d", i)}})
+			ammo.Write(append(line, '\n'))
+			continue
+		}
 		fmt.Fprintf(&ammo, "[X-Verif: %s]\n[X-Delay: %s]\n/e%d %s\n", xv, delay, i, string(vh.UnHex(tag)))
 	}
 	if err := afero.WriteFile(cfgFs, ammoFile, []byte(ammo.String()), 0o644); err != nil {
 		return "fserr"
 	}
 	defer func() { _ = cfgFs.Remove(ammoFile); _ = cfgFs.Remove(outFile) }()
-	gunTarget, gunExtra := t.Addr(), ""
+	gunTarget, gunExtra, ammoType, ids := "", "", "uri", true
+	if isGrpc {
+		gunTarget, ammoType, ids = gt.Addr, "grpc/json", false
+	} else {
+		gunTarget = t.Addr()
+	}
 	if how != "" {
 		gunTarget = strings.Replace(gunTarget, "127.0.0.1", "localhost", 1)
 	}
@@ -162,12 +185,12 @@ func runEngine(f []string) string {
 	text := fmt.Sprintf(`pools:
   - id: engine-%d
     gun: {type: %s, target: "%s"%s}
-    ammo: {type: uri, file: %s, %s: %s}
-    result: {type: phout, destination: %s, id: true, sample-queue-size: %s}
+    ammo: {type: %s, file: %s, %s: %s}
+    result: {type: phout, destination: %s, id: %v, sample-queue-size: %s}
     rps-per-instance: %v
     rps: %s
     startup: %s
-`, engSeq, gun, gunTarget, gunExtra, ammoFile, boundKey, bound[1:], outFile, queue, own, rpsY, startY)
+`, engSeq, gun, gunTarget, gunExtra, ammoType, ammoFile, boundKey, bound[1:], outFile, ids, queue, own, rpsY, startY)
 	tree, err := yamlTree(text)
 	if err != nil {
 		return "yamlerr"
@@ -196,7 +219,13 @@ func runEngine(f []string) string {
 		return "err=hang"
 	}
 	counts := map[int]int{}
-	for _, p := range t.TakeServed() {
+	var servedPaths []string
+	if isGrpc {
+		servedPaths = gt.TakeServed()
+	} else {
+		servedPaths = t.TakeServed()
+	}
+	for _, p := range servedPaths {
 		if i, err := strconv.Atoi(strings.TrimPrefix(p, "/e")); err == nil && strings.HasPrefix(p, "/e") {
 			counts[i]++
 		} else {
@@ -228,7 +257,10 @@ func runEngine(f []string) string {
 		if len(fl) != 12 {
 			return "badline"
 		}
-		tag, id, _ := strings.Cut(fl[1], "#")
+		tag, id := fl[1], "0"
+		if ids {
+			tag, id, _ = strings.Cut(fl[1], "#")
+		}
 		lines = append(lines, fmt.Sprintf("%s#%s:%s:%s", vh.HexS(tag), id, fl[11], fl[10]))
 	}
 	sort.Strings(lines)
@@ -247,6 +279,8 @@ func genEngine(r *vh.Rand, tier string) []string {
 		"engine http@nodns once:4 shared-unl L9 40 2 " + vh.HexS("a") + ":200," + vh.HexS("b") + ":500",
 		"engine http const:100:60 own-once:3 L100 30 1000 " + vh.HexS("a") + ":200," + vh.HexS("b") + ":404",
 		"engine http const:50:3000 shared-const:100:100 L100 60 1000 " + vh.HexS("a") + ":200",
+		"engine grpc const:50:3000 shared-unl L5 150 1000 " + vh.HexS("g") + ":st0," + vh.HexS("") + ":st14," + vh.HexS("grpc tag") + ":st5",
+		"engine grpc istep:1:6:1:25 own-unl P2 120 1 " + vh.HexS("a") + ":st4," + vh.HexS("b") + ":st99",
 	}
 	n := 10
 	if tier == "thorough" {
@@ -281,6 +315,13 @@ func genEngine(r *vh.Rand, tier string) []string {
 				st = "trunc"
 			}
 			es = append(es, vh.HexS(r.Pick(tags))+":"+st)
+		}
+		if r.Chance(1, 5) {
+			gun = "grpc"
+			for j := range es {
+				tg, _, _ := strings.Cut(es[j], ":")
+				es[j] = tg + ":st" + strconv.Itoa(r.PickInt([]int{0, 0, 1, 4, 5, 8, 13, 14, 16, 99}))
+			}
 		}
 		bound := fmt.Sprintf("L%d", r.Range(1, 8))
 		if r.Chance(1, 4) {
